@@ -119,6 +119,18 @@ def inner_apps(tmpdir):
         await send({"type": "http.response.start", "status": 200, "headers": [(b"x-author", b"Zo\xc3\xab"), (b"x-bin", b"\xff\x80")]})
         await send({"type": "http.response.body", "body": b"x"})
 
+    def raw_hop(environ, start_response):
+        # a hand-written application may emit Connection / Upgrade / Proxy-Authenticate: what it sends is what arrives
+        start_response("426 Upgrade Required", [("Upgrade", "TLS/1.3"), ("Connection", "Upgrade"), ("X-Raw", "1"),
+                                                  ("Proxy-Authenticate", 'Basic realm="x"'), ("Keep-Alive", "timeout=5")])
+        return [b"upgrade"]
+
+    async def araw_hop(scope, receive, send):
+        await send({"type": "http.response.start", "status": 426, "headers": [
+            (b"upgrade", b"TLS/1.3"), (b"connection", b"Upgrade"), (b"x-raw", b"1"), (b"proxy-authenticate", b'Basic realm="x"'),
+            (b"keep-alive", b"timeout=5")]})
+        await send({"type": "http.response.body", "body": b"upgrade"})
+
     async def araw_dup(scope, receive, send):
         await send({"type": "http.response.start", "status": 200, "headers": [(b"set-cookie", b"a=1"), (b"set-cookie", b"b=2")]})
         await send({"type": "http.response.body", "body": b"x"})
@@ -146,7 +158,7 @@ def inner_apps(tmpdir):
                 extra["chunks/%s/%s" % (kind, ",".join(c.decode() or "-" for c in seq))] = chunk_apps(kind, seq)
     raw = {**extra, "raw_list": (raw_list, araw, False), "raw_tuple": (raw_tuple, araw, False), "raw_gen": (raw_gen, araw, False),
            "raw_empty": (raw_empty, araw_empty, False), "raw_dup_headers": (raw_dup, araw_dup, True),
-           "raw_high_bytes": (raw_high, araw_high, False)}
+           "raw_high_bytes": (raw_high, araw_high, False), "raw_hop_by_hop": (raw_hop, araw_hop, False)}
     return apps, raw
 
 
